@@ -196,6 +196,69 @@ func genStream(r *hlib.Rand) []byte {
 
 var connBudget = 6
 
+// total line lengths (CR LF included) around the sizes of bufio's buffers
+var lineLens = []int{4094, 4095, 4096, 4097, 4098, 4099, 5000, 8191, 8192, 8193, 65535, 65536, 65537}
+
+func lineLen(r *hlib.Rand) int {
+	if r.Chance(15) {
+		return 3000 + r.Intn(9000)
+	}
+	return hlib.Pick(r, lineLens)
+}
+
+func filler(n int, seed int) []byte {
+	b := make([]byte, n)
+	for i := range b {
+		b[i] = byte('a' + (i+seed)%26)
+	}
+	return b
+}
+
+// longInline: `<name> <word>\r\n` whose whole line is `total` bytes long
+func longInline(name string, total, seed int) []byte {
+	n := total - len(name) - 3
+	if n < 1 {
+		n = 1
+	}
+	return append(append([]byte(name+" "), filler(n, seed)...), '\r', '\n')
+}
+
+// paddedHeader: a decimal length left-padded with zeros to a line of `total` bytes (Atoi accepts it)
+func paddedHeader(prefix byte, v, total int) []byte {
+	d := strconv.Itoa(v)
+	n := total - 3 - len(d)
+	if n < 0 {
+		n = 0
+	}
+	b := []byte{prefix}
+	for i := 0; i < n; i++ {
+		b = append(b, '0')
+	}
+	return append(append(b, d...), '\r', '\n')
+}
+
+// genLongLines: a stream of ECHO commands with very long lines, a PING after each
+func genLongLines(r *hlib.Rand) []byte {
+	var b []byte
+	for i, n := 0, 1+r.Intn(2); i < n; i++ {
+		switch r.Intn(4) {
+		case 0, 1:
+			b = append(b, longInline(hlib.Pick(r, []string{"ECHO", "echo"}), lineLen(r), r.Intn(26))...)
+		case 2:
+			// array header line padded to the size
+			b = append(b, paddedHeader('*', 2, lineLen(r))...)
+			b = append(b, "$4\r\nECHO\r\n$3\r\nabc\r\n"...)
+		default:
+			// bulk header line padded to the size
+			b = append(b, "*2\r\n$4\r\nECHO\r\n"...)
+			b = append(b, paddedHeader('$', 3, lineLen(r))...)
+			b = append(b, "abc\r\n"...)
+		}
+		b = append(b, "PING\r\n"...)
+	}
+	return b
+}
+
 // frames that parse but carry no command: handleConn must skip every one of them
 var zeroFrames = []string{"*0\r\n", "*-1\r\n", "\r\n", " \r\n", "\t \r\n", "  \t\r\n", "*-5\r\n", "*+0\r\n", "*00\r\n",
 	"\r\r\n", "\v\f\r\n", "\xc2\xa0\r\n", "\xe2\x80\x83 \r\n", "*-9223372036854775808\r\n"}
@@ -222,6 +285,11 @@ func genC31(r *hlib.Rand, tier string) []string {
 	}
 	if r.Bool() {
 		ops = append(ops, genZero(r))
+	}
+	if r.Chance(30) {
+		// lines longer than bufio's buffer: through parseRESP and through the real server
+		b := genLongLines(r)
+		ops = append(ops, "parse "+hlib.Hex(b), "echo "+hlib.Hex(b))
 	}
 	// a few streams also go to the real server over TCP (does the process survive?)
 	if connBudget > 0 && r.Chance(4) {
